@@ -5,7 +5,7 @@ import inspect
 
 from ..cfg import cfg_of
 from ..core import (
-    cond_facts,
+    cond_facts, Undecidable,
     attrs_in, ancestors, assigns_to, body_walk, call_attr, call_name, calls_in, const_value, dotted, enclosing_stmt, handler_catches,
     in_block, is_const, kwarg, nodes_of_type, parent, stores_to, unparse, walk_local, names_in,
 )
@@ -454,6 +454,28 @@ def contexts(ctx):
     for x in au:
         fc = cond_facts([c_ for c_ in gc_.conditions_at(gc_.nodes_of(x)) if "finalizer" in unparse(c_[1])])
         ctx.check(fc == [("finalizer is not None", True)] or fc == [("finalizer is None", False)], x, "the atexit hook is removed when there is one", "atexit.unregister is reached under %s" % fc)
+    # disk.delete_folder: a folder that still holds files is removed only when the caller allows it (files of a
+    # context whose arrays are still referenced stay until their own count drops)
+    from .. import table
+    df = ctx.repo.func("joblib/disk.py", "delete_folder")
+    gd = cfg_of(df)
+    rmt = [x for x in calls_in(df) if call_name(x) == "shutil.rmtree" and any(isinstance(a_, (ast.While, ast.For)) for a_ in ancestors(x))]
+    for x in rmt:
+        tests = [c_ for c_ in gd.conditions_at(gd.nodes_of(x)) if isinstance(c_[0], ast.If) and ("files" in names_in(c_[1]) or "allow_non_empty" in names_in(c_[1]))]
+        wrong = []
+        try:
+            for n_files in (0, 3):
+                for allow in (True, False):
+                    env = {"len(files)": n_files, "allow_non_empty": allow, "files": ["f"] * n_files}
+                    got = all(bool(table.ev(t_, env, None)) == pol for (_, t_, pol) in tests) if tests else True
+                    want = n_files == 0 or allow
+                    if got != want:
+                        wrong.append((n_files, allow, got))
+        except table.Unknown as u_:
+            raise Undecidable("delete_folder's emptiness guard reads `%s`" % u_)
+        ctx.check(not wrong, x, "the tree is removed exactly when the folder is empty or the caller allows non-empty folders", "delete_folder removes the tree for (files, allow_non_empty, removed) = %s" % wrong)
+    ls = [a_ for a_ in nodes_of_type(df, ast.Assign) if "files" in stores_to(a_)]
+    ctx.check(bool(ls) and unparse(ls[0].value) == "os.listdir(folder_path)", ls[0] if ls else df, "emptiness is judged on a fresh listing of the folder")
     # the reducer creates the folder lazily; a folder created meanwhile by a sibling is fine
     fw = ctx.repo.func(MR, "ArrayMemmapForwardReducer.__call__")
     gf = cfg_of(fw)
